@@ -620,7 +620,8 @@ class NormalFormGame:
                         'by a square matrix'
                     )
                 N = 2
-                self.players = tuple(Player(data) for i in range(N))
+                # Each player owns a payoff array (no sharing, also not with the input)
+                self.players = tuple(Player(data.copy()) for i in range(N))
                 self.dtype = data.dtype
 
             else:  # data represents a payoff array
